@@ -4009,7 +4009,7 @@ func ruleTxRecordComplete(c *Ctx) {
 		}
 	}
 	if consumers == 0 {
-		c.Note("tx-record-complete.consumers", "no native contract reads the execution result out of the transaction record any more: the obligation on writers lapses")
+		c.Note("tx-record-complete: no native contract reads the execution result out of the transaction record any more: the obligation on writers lapses")
 		return
 	}
 	wfn := c.P.SSAFunc(writer.Obj)
@@ -5297,4 +5297,280 @@ func ruleRawBytesOwned(c *Ctx) {
 		}
 	}
 	c.Floor("methods writing into raw stored bytes", n, 1)
+}
+
+// ---------------------------------------------------------------------------
+// endianness-agreement (C07, C16, C17, C01) - a script hash has two byte orders and every site picks one by name
+// (BytesBE/BytesLE, Uint160DecodeBytesBE/LE, StringLE/StringBE, Uint160DecodeStringLE/BE). Two families of sites
+// have to agree with each other:
+//
+//	(a) storage keys of a native contract: the functions that mention one key-prefix constant build keys with
+//	    hash.BytesXX() and decode them back (cache initialisation at start-up, iteration) with Uint160DecodeBytesXX -
+//	    one order per prefix, or the cache rebuilt after a restart holds reversed hashes (a blocked account is no longer
+//	    blocked);
+//	(b) the JSON form of a type: what MarshalJSON prints (StringXX) and what UnmarshalJSON parses (DecodeStringXX,
+//	    in *every* accepted spelling - with and without 0x) - one order per type, or a permission names another contract.
+func ruleEndiannessAgreement(c *Ctx) {
+	order := func(name string) string {
+		switch {
+		case strings.HasSuffix(name, "BE"):
+			return "BE"
+		case strings.HasSuffix(name, "LE"):
+			return "LE"
+		}
+		return ""
+	}
+	isHashConv := func(fn *types.Func) (kind, ord string) {
+		if fn == nil || fn.Pkg() == nil || fn.Pkg().Path() != "github.com/nspcc-dev/neo-go/pkg/util" {
+			return "", ""
+		}
+		n := fn.Name()
+		o := order(n)
+		switch {
+		case o == "":
+			return "", ""
+		case strings.HasPrefix(n, "Bytes"):
+			return "enc-bytes", o
+		case strings.Contains(n, "DecodeBytes"):
+			return "dec-bytes", o
+		case strings.HasPrefix(n, "String"):
+			return "enc-string", o
+		case strings.Contains(n, "DecodeString"):
+			return "dec-string", o
+		}
+		return "", ""
+	}
+	// (a) native storage prefixes
+	if pk := c.P.Pkg("pkg/core/native"); pk != nil {
+		type use struct {
+			kind, ord, pos, fn string
+		}
+		byPrefix := map[string][]use{}
+		for _, fd := range c.P.AllFuncDecls() {
+			if fd.Pkg != pk || fd.Decl.Body == nil {
+				continue
+			}
+			info := fd.Pkg.TypesInfo
+			// prefix constants mentioned: byte-typed package-level constants whose name contains "refix"
+			prefixes := map[string]bool{}
+			ast.Inspect(fd.Decl.Body, func(x ast.Node) bool {
+				if id, ok := x.(*ast.Ident); ok {
+					if cst, ok := info.ObjectOf(id).(*types.Const); ok && cst.Pkg() == pk.Types && cst.Parent() == pk.Types.Scope() && strings.Contains(strings.ToLower(cst.Name()), "prefix") {
+						prefixes[cst.Name()] = true
+					}
+				}
+				return true
+			})
+			prefixesIn := func(n ast.Node) []string {
+				set := map[string]bool{}
+				ast.Inspect(n, func(x ast.Node) bool {
+					if _, isLit := x.(*ast.FuncLit); isLit {
+						return false
+					}
+					if id, ok := x.(*ast.Ident); ok {
+						if cst, ok := info.ObjectOf(id).(*types.Const); ok && cst.Pkg() == pk.Types && cst.Parent() == pk.Types.Scope() && strings.Contains(strings.ToLower(cst.Name()), "prefix") {
+							set[cst.Name()] = true
+						}
+					}
+					return true
+				})
+				var out []string
+				for k := range set {
+					out = append(out, k)
+				}
+				return out
+			}
+			record := func(n ast.Node, p string) {
+				ast.Inspect(n, func(x ast.Node) bool {
+					if call, ok := x.(*ast.CallExpr); ok {
+						if kind, ord := isHashConv(calleeFunc(info, call)); kind == "enc-bytes" || kind == "dec-bytes" {
+							byPrefix[p] = append(byPrefix[p], use{kind, ord, c.P.Pos(call.Pos()), FuncKey(fd.Obj)})
+						}
+					}
+					return true
+				})
+			}
+			if len(prefixes) == 1 {
+				for p := range prefixes {
+					record(fd.Decl.Body, p)
+				}
+				continue
+			}
+			// several prefixes in one function (cache initialisation): a callback handed to a call whose other arguments
+			// mention exactly one prefix (Seek{Prefix: []byte{p}}, func(k, v) ...) belongs to that prefix
+			ast.Inspect(fd.Decl.Body, func(x ast.Node) bool {
+				call, ok := x.(*ast.CallExpr)
+				if !ok {
+					return true
+				}
+				var lits []*ast.FuncLit
+				var ps []string
+				for _, a := range call.Args {
+					if fl, ok := a.(*ast.FuncLit); ok {
+						lits = append(lits, fl)
+					} else {
+						ps = append(ps, prefixesIn(a)...)
+					}
+				}
+				if len(lits) > 0 && len(ps) == 1 {
+					for _, fl := range lits {
+						record(fl.Body, ps[0])
+					}
+				}
+				return true
+			})
+		}
+		n := 0
+		var ps []string
+		for p := range byPrefix {
+			ps = append(ps, p)
+		}
+		sort.Strings(ps)
+		for _, p := range ps {
+			us := byPrefix[p]
+			ords := map[string]bool{}
+			hasEnc, hasDec := false, false
+			for _, u := range us {
+				ords[u.ord] = true
+				if u.kind == "enc-bytes" {
+					hasEnc = true
+				} else {
+					hasDec = true
+				}
+			}
+			if !hasEnc || !hasDec {
+				continue
+			}
+			n++
+			key := "endianness-agreement.key." + p
+			if len(ords) == 1 {
+				c.OK(key, us[0].pos, fmt.Sprintf("keys under %s are built and decoded in one byte order (%d sites)", p, len(us)))
+			} else {
+				var det []string
+				for _, u := range us {
+					det = append(det, fmt.Sprintf("%s %s %s at %s", shortSym(u.fn), u.kind, u.ord, u.pos))
+				}
+				c.Fail(key, us[0].pos, fmt.Sprintf("storage keys under %s are built and decoded in different byte orders: what is rebuilt from storage (cache initialisation after a restart, iteration) holds byte-reversed hashes", p), det...)
+			}
+		}
+		c.Floor("native key prefixes with both an encoder and a decoder of hashes", n, 1)
+	}
+	// (b) JSON pairs
+	type pair struct{ m, u *FuncDecl }
+	pairs := map[string]*pair{}
+	for _, fd := range c.P.AllFuncDecls() {
+		if fd.Decl.Body == nil || fd.Decl.Recv == nil || !strings.HasPrefix(pkgRel(fd.Pkg.Types), "pkg/") {
+			continue
+		}
+		nm := fd.Obj.Name()
+		if nm != "MarshalJSON" && nm != "UnmarshalJSON" {
+			continue
+		}
+		rt := fd.Obj.Type().(*types.Signature).Recv().Type()
+		if p, ok := rt.(*types.Pointer); ok {
+			rt = p.Elem()
+		}
+		k := types.TypeString(rt, nil)
+		if pairs[k] == nil {
+			pairs[k] = &pair{}
+		}
+		if nm == "MarshalJSON" {
+			pairs[k].m = fd
+		} else {
+			pairs[k].u = fd
+		}
+	}
+	var ks []string
+	for k := range pairs {
+		ks = append(ks, k)
+	}
+	sort.Strings(ks)
+	nj := 0
+	for _, k := range ks {
+		pr := pairs[k]
+		if pr.m == nil || pr.u == nil {
+			continue
+		}
+		collect := func(fd *FuncDecl, want string) map[string][]string {
+			out := map[string][]string{}
+			ast.Inspect(fd.Decl.Body, func(x ast.Node) bool {
+				if call, ok := x.(*ast.CallExpr); ok {
+					if kind, ord := isHashConv(calleeFunc(fd.Pkg.TypesInfo, call)); kind == want {
+						out[ord] = append(out[ord], c.P.Pos(call.Pos()))
+					}
+				}
+				return true
+			})
+			return out
+		}
+		enc, dec := collect(pr.m, "enc-string"), collect(pr.u, "dec-string")
+		if len(enc) == 0 || len(dec) == 0 {
+			continue
+		}
+		nj++
+		key := "endianness-agreement.json." + shortSym(strings.TrimPrefix(k, "github.com/nspcc-dev/neo-go/"))
+		all := map[string]bool{}
+		for o := range enc {
+			all[o] = true
+		}
+		for o := range dec {
+			all[o] = true
+		}
+		if len(all) == 1 {
+			c.OK(key, c.P.Pos(pr.u.Decl.Pos()), "MarshalJSON prints and UnmarshalJSON parses hashes in one byte order, in every accepted spelling")
+		} else {
+			c.Fail(key, c.P.Pos(pr.u.Decl.Pos()), fmt.Sprintf("the JSON form of %s is printed with byte order %v and parsed with %v: one of the accepted spellings of a hash is read byte-reversed - the value names another contract", k, sortedKeysOfSliceMap(enc), sortedKeysOfSliceMap(dec)))
+		}
+	}
+	c.Floor("types printing and parsing hashes in JSON", nj, 2)
+}
+
+func sortedKeysOfSliceMap(m map[string][]string) []string {
+	var out []string
+	for k := range m {
+		out = append(out, k)
+	}
+	sort.Strings(out)
+	return out
+}
+
+// ---------------------------------------------------------------------------
+// method-lookup-arity (C16) - a contract may have several methods of one name that differ in the number of
+// parameters, and each has a safe mark of its own. System.Contract.Call, CALLT and the native-to-contract path decide
+// on the permission check and on stripping the write/notify flags from the descriptor they look up; the callee that
+// finally runs is looked up again further down. All these lookups have to name the same overload: a lookup by a
+// dynamic method name passes the number of arguments actually supplied (len of the argument slice), never "any arity".
+func ruleMethodLookupArity(c *Ctx) {
+	pk := c.P.Pkg("pkg/core/interop/contract")
+	if pk == nil {
+		c.Lost("method-lookup-arity.anchor", "package interop/contract not found")
+		return
+	}
+	n := 0
+	for _, fd := range c.P.AllFuncDecls() {
+		if fd.Pkg != pk || fd.Decl.Body == nil {
+			continue
+		}
+		f := c.P.NewFuncCFG(fd)
+		k := 0
+		for _, s := range f.CallSites("pkg/smartcontract/manifest.(*ABI).GetMethod") {
+			if len(s.call.Args) != 2 {
+				continue
+			}
+			if tv := f.Info.Types[s.call.Args[0]]; tv.Value != nil {
+				continue // a fixed, protocol-defined method (_initialize/0, _deploy/2, verify)
+			}
+			n++
+			k++
+			key := fmt.Sprintf("method-lookup-arity.%s#%d", FuncKey(fd.Obj), k)
+			if tv := f.Info.Types[s.call.Args[1]]; tv.Value != nil {
+				c.Fail(key, c.P.Pos(s.call.Pos()), fmt.Sprintf("%s looks a method up by a dynamic name with a constant arity (%s): with overloaded method names the descriptor it gets - whose safe mark decides on the permission check and on stripping WriteStates/AllowNotify - need not be the overload that is executed", FuncKey(fd.Obj), tv.Value))
+			} else if f.DirectMentions(s.call.Args[1])["builtin.len"] {
+				c.OK(key, c.P.Pos(s.call.Pos()), "looked up by name and by the number of arguments supplied")
+			} else {
+				c.Unclassified(key, c.P.Pos(s.call.Pos()), "arity argument is neither a constant nor len(args)")
+			}
+		}
+	}
+	c.Floor("method lookups by a dynamic name on the call path", n, 3)
 }
